@@ -67,11 +67,12 @@ type Checker struct {
 	expected      map[string]*big.Int        // expected world supply per storage key
 	issued        map[string]map[uint64]bool // nonces returned by NFTCreate, per token
 	undisciplined map[string]bool
-	known         map[string]bool              // well-formed token ids that were issued (a role was set / minted / created)
-	raw           map[int]map[string][]byte    // slots last written by `raw`: shard -> addr\x00key -> value
+	known         map[string]bool           // well-formed token ids that were issued (a role was set / minted / created)
+	raw           map[int]map[string][]byte // slots last written by `raw`: shard -> addr\x00key -> value
 	cache         decodeCache
 	cur           *callCtx
-	MaxFindings   int // recording stops after this many (0 = 10000)
+	enc           encMemo // last enc* op (C14 round trip)
+	MaxFindings   int     // recording stops after this many (0 = 10000)
 }
 
 // New creates a checker observing w.
@@ -242,6 +243,8 @@ func (c *Checker) After(line string, obs string) {
 		}
 		c.afterCall(x)
 		return
+	default:
+		c.afterPure(line, op, args, obs) // C14 / C20 oracles on pure ops
 	}
 }
 
